@@ -22,7 +22,8 @@ def run(ctx):
     ctx.explanation = (
         "Decided: D1 type-lattice coverage: the isinstance tuple of the integral branch covers int, float, numpy.integer and "
         "numpy.floating and the one of the float branch covers float and numpy.floating (subclass facts are read from the installed numpy: "
-        "np.float64 is a float, np.int64 is not an int); D2 constant folding: the comparison bounds and the clamp bounds of the integral "
+        "np.float64 is a float, np.int64 is not an int), and the integer bound is compared without being rounded to a narrow float type "
+        "(numpy converts a Python int compared with a float32 scalar to float32, where 2**53 - 1 becomes 2**53); D2 constant folding: the comparison bounds and the clamp bounds of the integral "
         "branch all equal +-(2**53 - 1); the float clamp bounds are finite and symmetric and equal the comparison bounds; D3 mappings and "
         "non-string iterables recurse on every element and rebuild a dict / list; strings are not iterated; the branch order is mapping, "
         "iterable, integral, float; everything else is returned unchanged. Not decided: arithmetic of `%`, NaN.")
@@ -77,11 +78,13 @@ def run(ctx):
     # D2 bounds
     cmp_nodes = [n for n in ast.walk(integral.test) if isinstance(n, ast.Compare) and len(n.ops) == 2]
     ok = False
+    cmp_operand = clamp_operand = None
     if cmp_nodes:
         c = cmp_nodes[0]
         try:
             lo, hi = fold(c.left), fold(c.comparators[1])
-            ok = lo == -LIMIT and hi == LIMIT and all(isinstance(o, ast.LtE) for o in c.ops) and A.norm(c.comparators[0]) == "data"
+            ok = lo == -LIMIT and hi == LIMIT and all(isinstance(o, ast.LtE) for o in c.ops) and A.norm(c.comparators[0]) in ("data", "int(data)")
+            cmp_operand = A.norm(c.comparators[0])
         except Exception:
             ok = False
     ctx.ob("C38.D2-bounds", cname(f, None, "in-range test is -(2**53-1) <= data <= 2**53-1"), ok, "" if ok else "comparison bounds changed", nontrivial=True, where=where(f, integral))
@@ -93,9 +96,34 @@ def run(ctx):
             hi = fold(r.value.args[1])
             lo = fold(inner.args[1]) if isinstance(inner, ast.Call) and A.call_name(inner) == "max" else None
             ok = hi == LIMIT and lo == -LIMIT and A.norm(inner.args[0]) in ("data", "int(data)")
+            clamp_operand = A.norm(inner.args[0])
         except Exception:
             ok = False
     ctx.ob("C38.D2-bounds", cname(f, None, "clamp is min(max(data, -(2**53-1)), 2**53-1)"), ok, "" if ok else "clamp bounds differ from the comparison bounds", nontrivial=True, where=where(f, integral))
+    # D1 (integral branch): the bound 2**53 - 1 must survive the comparison's type promotion.  numpy converts a Python int that is
+    # compared with a numpy float scalar to that scalar's type (NEP 50); facts read from the installed numpy:
+    facts["float32(2**53 - 1) == 2**53 - 1"] = int(np.float32(LIMIT)) == LIMIT
+    narrow_lossy = ("np.floating" in set(isinstance_types(integral.test))) and not facts["float32(2**53 - 1) == 2**53 - 1"]
+    for what, operand in (("in-range test", cmp_operand), ("clamp", clamp_operand)):
+        if operand is None:
+            continue
+        if operand == "float(data)":
+            ok, why = False, "float(data) raises OverflowError for Python integers above 1.8e308"
+        elif operand == "data":
+            ok, why = not narrow_lossy, ("a numpy float32 / float16 is compared with the Python int bound after the BOUND is rounded to that type "
+                                         "(2**53 - 1 becomes 2**53): float32(2**53) counts as in range and is returned unchanged")
+        else:
+            ok, why = operand == "int(data)", f"operand {operand}"
+        ctx.ob("C38.D1-bound-survives-promotion", cname(f, None, f"{what}: the value is compared exactly (int(data)) or no narrow float type reaches it"), ok,
+               "" if ok else why, nontrivial=True, where=where(f, integral))
+    # int(data) is only safe behind the integrality guard (inf / nan % 1 is nan -> falsy guard): the guard must precede it in the `and` chain
+    if "int(data)" in (cmp_operand, clamp_operand):
+        vals = integral.test.values if isinstance(integral.test, ast.BoolOp) and isinstance(integral.test.op, ast.And) else []
+        i_guard = next((i for i, v in enumerate(vals) if A.norm(v) in ("not data % 1", "data % 1 == 0")), None)
+        i_cmp = next((i for i, v in enumerate(vals) if "int(data)" in A.norm(v)), None)
+        ok = i_guard is not None and (i_cmp is None or i_guard < i_cmp)
+        ctx.ob("C38.D1-bound-survives-promotion", cname(f, None, "int(data) is evaluated only after the integrality guard (never on inf / nan)"), ok,
+               "" if ok else "int(data) can be evaluated on an infinity or NaN (OverflowError / ValueError)", where=where(f, integral))
     ok = "not data % 1" in A.norm(integral.test)
     ctx.ob("C38.D2-bounds", cname(f, None, "only integral values take the integer clamp"), ok, "" if ok else "fractional values are clamped as integers", where=where(f, integral))
     consts = sorted({n.value for n in ast.walk(flt) if isinstance(n, ast.Constant) and isinstance(n.value, float)})
@@ -108,7 +136,8 @@ def run(ctx):
 
 CLAIM = {
     "text": "Decides type-lattice coverage of the numeric branches against the installed numpy's class hierarchy (numpy integers are not ints: the "
-            "omission fixed in /repo as F-11 would be reported again), equality of the comparison and clamp bounds with +-(2**53-1) by constant "
+            "omission fixed in /repo as F-11 would be reported again; so would F-14, the float32 value 2**53 passing because the bound is rounded to "
+            "float32 by the comparison), equality of the comparison and clamp bounds with +-(2**53-1) by constant "
             "folding, finiteness and agreement of the float bounds, and the recursion / branch-order shape. The arithmetic of `%` and NaN are not decided.",
     "technique": "isinstance-tuple coverage against the numeric type lattice (inspect of numpy classes); constant folding; shape rules",
 }
@@ -116,8 +145,12 @@ CLAIM = {
 U = "utils/__init__.py"
 MUTANTS = [
     ("numpy integers pass through (revert of F-11)", [(U, "    elif isinstance(data, (int, float, np.integer, np.floating)) and not (data % 1)", "    elif isinstance(data, (int, float)) and not (data % 1)")], "C38.D1"),
-    ("upper bound 2**53", [(U, "not (1 - 2**53 <= data <= 2**53 - 1):\n        return min(max(data, 1 - 2**53), 2**53 - 1)", "not (1 - 2**53 <= data <= 2**53):\n        return min(max(data, 1 - 2**53), 2**53 - 1)")], "C38.D2"),
-    ("clamp lower bound off by one", [(U, "        return min(max(data, 1 - 2**53), 2**53 - 1)", "        return min(max(data, -(2**53)), 2**53 - 1)")], "C38.D2"),
+    ("upper bound 2**53", [(U, "not (1 - 2**53 <= int(data) <= 2**53 - 1):", "not (1 - 2**53 <= int(data) <= 2**53):")], "C38.D2"),
+    ("clamp lower bound off by one", [(U, "        return min(max(int(data), 1 - 2**53), 2**53 - 1)", "        return min(max(int(data), -(2**53)), 2**53 - 1)")], "C38.D2"),
+    ("range test on the raw value (revert of F-14)", [(U, "not (1 - 2**53 <= int(data) <= 2**53 - 1):", "not (1 - 2**53 <= data <= 2**53 - 1):")], "C38.D1-bound"),
+    ("clamp on the raw value (revert of F-14)", [(U, "        return min(max(int(data), 1 - 2**53), 2**53 - 1)", "        return min(max(data, 1 - 2**53), 2**53 - 1)")], "C38.D1-bound"),
+    ("clamp keeps the input type (seed C38-a)", [(U, "        return min(max(int(data), 1 - 2**53), 2**53 - 1)", "        return type(data)(min(max(int(data), 1 - 2**53), 2**53 - 1))")], "C38.D2"),
+    ("int() before the integrality guard", [(U, "and not (data % 1) and not (1 - 2**53 <= int(data) <= 2**53 - 1):", "and not (1 - 2**53 <= int(data) <= 2**53 - 1) and not (data % 1):")], "C38.D1-bound"),
     ("strings iterated", [(U, "    elif isinstance(data, collections.abc.Iterable) and not isinstance(data, str):", "    elif isinstance(data, collections.abc.Iterable):")], "C38.D3"),
     ("mapping values not recursed", [(U, "        return {k: truncate_json_overflow(v) for k, v in data.items()}", "        return dict(data)")], "C38.D3"),
     ("float branch only for Python floats", [(U, "    elif isinstance(data, (float, np.floating)) and (float(data) < -1.7976e308 or float(data) > 1.7976e308):", "    elif isinstance(data, float) and (float(data) < -1.7976e308 or float(data) > 1.7976e308):")], "C38.D1"),
